@@ -1,5 +1,21 @@
 (** C12 — every transformation returns a well-formed graph that serialises
-    faithfully.  ONLY statements here; proofs live in Proofs/Transform_lemmas.v. *)
+    faithfully.  ONLY statements here; proofs live in Proofs/Transform_lemmas.v.
+
+    Vocabulary (Spec/WfGraph.v): [node_graph g] = roles carry their colon and
+    every variable (sources and the explicit top) is a str owning exactly one
+    instance triple; it is [wf_graph] without the pairwise-distinctness clause
+    (which dereify_edges / indicate_branches may break by re-creating a triple
+    that is already present) and it is the invariant that COMPOSES: each
+    theorem below has [node_graph g] as hypothesis and conclusion.
+    [table_inst_free m]: no role, source role or target role of the
+    reification table is the instance role (after Graph() has added the colon).
+
+    [connectedP g]: every variable is reachable from the top along edges taken
+    in either direction (inductive [reach]); the boolean procedure
+    [connected_b] is proved sound for it.
+
+    The clause - encodes without error and decodes to itself - is an instance of
+    C03/C06 (arbitrary markers) and is exercised by harness/c12.py only. *)
 From PM Require Import Spec.WfGraph Proofs.Transform_lemmas.
 
 (* ---- the top is kept (F12) ---- *)
@@ -22,3 +38,151 @@ Theorem C12_indicate_branches_top : forall m g g',
   indicate_branches m g = Ok g' -> graph_top g' = graph_top g.
 Proof. exact indicate_branches_top. Qed.
 Print Assumptions C12_indicate_branches_top.
+
+(* ---- no exception, on ANY graph: no, partial or inconsistent epidata (F9);
+        the fresh-name searches terminate within their fuel ---- *)
+Theorem C12_reify_edges_total : forall m g, exists g', reify_edges m g = Ok g'.
+Proof. exact reify_edges_total. Qed.
+Print Assumptions C12_reify_edges_total.
+
+Theorem C12_dereify_edges_total : forall m g, exists g', dereify_edges m g = Ok g'.
+Proof. exact dereify_edges_total. Qed.
+Print Assumptions C12_dereify_edges_total.
+
+Theorem C12_reify_attributes_total : forall g, exists g', reify_attributes g = Ok g'.
+Proof. exact reify_attributes_total. Qed.
+Print Assumptions C12_reify_attributes_total.
+
+(* indicate_branches contains [assert isinstance(t[2], str)] on a target that
+   is a variable: it cannot fail when every variable is a str *)
+Theorem C12_indicate_branches_total : forall m g, vars_are_str g ->
+  exists g', indicate_branches m g = Ok g'.
+Proof. exact indicate_branches_total. Qed.
+Print Assumptions C12_indicate_branches_total.
+
+(* ... and the assertion is its only possible failure *)
+Theorem C12_indicate_branches_only_assert : forall m g ts r,
+  indicate_loop m g ts = r -> (exists l, r = Ok l) \/ r = Other 4.
+Proof. exact indicate_loop_only_assert. Qed.
+Print Assumptions C12_indicate_branches_only_assert.
+
+(* ---- every source is a variable owning exactly one instance triple ---- *)
+Theorem C12_wf_is_node_graph : forall g, wf_graph g -> node_graph g.
+Proof. exact wf_node_graph. Qed.
+Print Assumptions C12_wf_is_node_graph.
+
+Theorem C12_sources_are_variables_reify_edges : forall m g g',
+  node_graph g -> table_inst_free m = true -> reify_edges m g = Ok g' -> node_graph g'.
+Proof. exact reify_edges_node_graph. Qed.
+Print Assumptions C12_sources_are_variables_reify_edges.
+
+(* needs the F17 guard: the dereified source must be a variable *)
+Theorem C12_sources_are_variables_dereify_edges : forall m g g',
+  node_graph g -> table_inst_free m = true -> dereify_edges m g = Ok g' -> node_graph g'.
+Proof. exact dereify_edges_node_graph. Qed.
+Print Assumptions C12_sources_are_variables_dereify_edges.
+
+Theorem C12_sources_are_variables_reify_attributes : forall g g',
+  node_graph g -> reify_attributes g = Ok g' -> node_graph g'.
+Proof. exact reify_attributes_node_graph. Qed.
+Print Assumptions C12_sources_are_variables_reify_attributes.
+
+(* needs the F29 guard: a branch is indicated from the target's node only
+   when the target is a variable *)
+Theorem C12_sources_are_variables_indicate_branches : forall m g g',
+  node_graph g -> colon_inst (top_role m) = false -> indicate_branches m g = Ok g' -> node_graph g'.
+Proof. exact indicate_branches_node_graph. Qed.
+Print Assumptions C12_sources_are_variables_indicate_branches.
+
+(* ---- reify_attributes ---- *)
+Theorem C12_reify_attributes_no_attr : forall g g',
+  reify_attributes g = Ok g' -> attributes g' None None None = [].
+Proof. exact reify_attributes_no_attr. Qed.
+Print Assumptions C12_reify_attributes_no_attr.
+
+(* contracting every pair (s, r, v) (v, :instance, c) whose v is not an old
+   name gives back exactly the original triple list *)
+Theorem C12_reify_attributes_contract : forall g g',
+  (forall t, In t (triples g) -> has_colon (trole t) = true) ->
+  reify_attributes g = Ok g' -> contract_attrs (used_names g) (triples g') = triples g.
+Proof. exact reify_attributes_contract. Qed.
+Print Assumptions C12_reify_attributes_contract.
+
+(* ---- indicate_branches ---- *)
+(* the result is the input with one top-role triple in front of every triple
+   that [indicates] (its first Push names the target, or names the source
+   while the target is a variable) ... *)
+Theorem C12_indicate_shape : forall m g, vars_are_str g ->
+  indicate_branches m g = Ok (mk_graph (itriples m g (triples g)) (graph_top g) (epidata g) (gmeta g)).
+Proof. exact indicate_branches_pure. Qed.
+Print Assumptions C12_indicate_shape.
+
+(* ... so exactly one triple is added per such Push ... *)
+Theorem C12_indicate_adds_one_per_push : forall m g,
+  length (itriples m g (triples g)) = length (triples g) + length (filter (indicates g) (triples g)).
+Proof. intros. apply itriples_length. auto. Qed.
+Print Assumptions C12_indicate_adds_one_per_push.
+
+(* ... and removing the top-role triples gives the original back *)
+Theorem C12_indicate_remove : forall m g g', vars_are_str g ->
+  (forall t, In t (triples g) -> has_colon (trole t) = true /\
+                                 str_eqb (trole t) (ensure_colon (top_role m)) = false) ->
+  indicate_branches m g = Ok g' ->
+  filter (fun t => negb (str_eqb (trole t) (ensure_colon (top_role m)))) (triples g') = triples g.
+Proof.
+  intros m g g' V H E. rewrite indicate_branches_pure in E by auto. inversion E; subst.
+  rewrite triples_mk. apply itriples_remove. intros t I. destruct (H t I). auto.
+Qed.
+Print Assumptions C12_indicate_remove.
+
+(* ---- connectivity ---- *)
+Theorem C12_connected_sound : forall g, connected g -> connectedP g.
+Proof. exact connected_b_sound. Qed.
+Print Assumptions C12_connected_sound.
+
+Theorem C12_connected_reify_edges : forall m g g', node_graph g -> table_inst_free m = true ->
+  connectedP g -> reify_edges m g = Ok g' -> connectedP g'.
+Proof. exact reify_edges_connected. Qed.
+Print Assumptions C12_connected_reify_edges.
+
+(* a collapsed node has exactly two relations, both outgoing, and is never adjacent
+   to another collapsed node: the dereified triple bridges its two neighbours *)
+Theorem C12_connected_dereify_edges : forall m g g', node_graph g -> table_inst_free m = true ->
+  connectedP g -> dereify_edges m g = Ok g' -> connectedP g'.
+Proof. exact dereify_edges_connected. Qed.
+Print Assumptions C12_connected_dereify_edges.
+
+Theorem C12_connected_reify_attributes : forall g g', node_graph g ->
+  connectedP g -> reify_attributes g = Ok g' -> connectedP g'.
+Proof. exact reify_attributes_connected. Qed.
+Print Assumptions C12_connected_reify_attributes.
+
+Theorem C12_connected_indicate_branches : forall m g g', node_graph g ->
+  colon_inst (top_role m) = false -> connectedP g -> indicate_branches m g = Ok g' -> connectedP g'.
+Proof. exact indicate_branches_connected. Qed.
+Print Assumptions C12_connected_indicate_branches.
+
+(* ---- every composition, in the CLI order or any other, of any length: it never
+        raises and returns a graph with the same top that is again a node graph
+        (every source a variable owning one instance triple) and connected ---- *)
+Theorem C12_every_program : forall m prog g, node_graph g -> connectedP g ->
+  table_inst_free m = true -> colon_inst (top_role m) = false ->
+  exists g', run_xforms m prog g = Ok g' /\ node_graph g' /\ connectedP g' /\ graph_top g' = graph_top g.
+Proof. exact run_xforms_ok. Qed.
+Print Assumptions C12_every_program.
+
+(* ---- the hypotheses are satisfiable; the live AMR table qualifies ---- *)
+From PM Require Import Gen.AmrTable.
+Definition c12_sample : graph :=
+  (* (a / x :mod 7 :ARG0 (b / y))  as decoded *)
+  mkGraph [(AStr [97], INSTANCE, AStr [120]); (AStr [97], [58;109;111;100], AStr [55]);
+           (AStr [97], [58;65;82;71;48], AStr [98]); (AStr [98], INSTANCE, AStr [121])]%N
+          (Some (AStr [97]%N))
+          [((AStr [97], [58;65;82;71;48], AStr [98]), [Push (AStr [98])]);
+           ((AStr [98], INSTANCE, AStr [121]), [Pop])]%N [].
+Example C12_sample_wf : wf_graph c12_sample /\ connected c12_sample /\
+  table_inst_free (model_of_table amr_table) = true /\
+  colon_inst (top_role (model_of_table amr_table)) = false /\
+  table_inst_free default_model = true /\ colon_inst (top_role default_model) = false /\
+  exists g', run_xforms (model_of_table amr_table) cli_order c12_sample = Ok g' /\ length (triples g') = 7.
+Proof. vm_compute. repeat split; auto. eexists. split; reflexivity. Qed.
